@@ -21,6 +21,15 @@ nothing in the repository is edited):
      before ``slogdet`` (so ``logdet < -50`` is a relative test) and
      ``LearnerND.inside_bounds`` uses ``eps = 1e-8 * (mx - mn)`` -> F9b
   c  ``learnerND._simplex_evaluation_priority`` without ``round(loss, 8)`` -> F9c
+     (never a first cause - annotation only, see ``classify``)
+  d  ``LearnerND._update_losses`` keeps the pending points freed by deleted
+     simplices in first-seen order (dict) instead of a set of float tuples,
+     whose iteration order depends on the hashes of the coordinates       -> F9d
+
+The neutralised functions are obtained by textual rewrites of the repository's
+current source (hand-written copies only as a fall-back), and an attribution
+needs evidence that the mechanism actually took different decisions in the
+two twins (see ``classify``).
 
 API used by ``props/c12.py``: ``run_lnd(chk, ncases, maxlen)`` and
 ``replay_lnd(r)``.  ``python -m avh.impl_c12_lnd --n 60 --maxlen 25`` runs it
@@ -814,6 +823,7 @@ def run_lnd(chk, ncases: int, maxlen: int) -> dict:
             if want is not None and r["sig"] != want:
                 stats["corpus_ok"] = False
                 chk.log(f"LND corpus case {idx[1]} now gives {r['sig']!r} instead of {want!r}")
+    stats["neutralisation"] = neutralisation_report()
     stats["wall_s"] = round(time.time() - t0, 1)
     return stats
 
